@@ -527,7 +527,10 @@ class Kernel(Module):
             # Did this Kernel eat the diag option?
             # If it does not return a LazyEvaluatedKernelTensor, we can call diag on the output
             if not isinstance(res, LazyEvaluatedKernelTensor):
-                if res.dim() == x1_.dim() and res.shape[-2:] == torch.Size((x1_.size(-2), x2_.size(-2))):
+                # With last_dim_is_batch a full (not yet diagonalised) result is `... x d x n x n`; the `... x d x n`
+                # diagonal itself must not be mistaken for a full matrix when d == n.
+                full_dim = x1_.dim() + (1 if last_dim_is_batch else 0)
+                if res.dim() == full_dim and res.shape[-2:] == torch.Size((x1_.size(-2), x2_.size(-2))):
                     res = res.diagonal(dim1=-1, dim2=-2)
             return res
 
